@@ -75,7 +75,7 @@ def run(ctx):
     rng = ctx.rng
     os.environ.setdefault("JAVA_TOOL_OPTIONS", "-XX:ParallelGCThreads=2")
     # ------------------------------------------------------------------ generation (TLC)
-    r = ctx.tlc_or_undecided("Codec", "Gen_Codec.cfg", workers=2, timeout=900)
+    r = ctx.tlc_or_undecided("Codec", "Gen_Codec.cfg" if quick else "Gen_Codec_thorough.cfg", workers=2, timeout=900)
     if r.violated:
         raise Undecided("Codec.tla: %s violated (layout table is inconsistent)" % r.violated)
     frames = tlc_json_lines(r.out, "CASE")
@@ -87,7 +87,8 @@ def run(ctx):
         f["id"] = i
         big = any(x["v"] == "LMAX" or x["v"].endswith(":LMAX") for x in f["fields"])
         # byte-level loops: every valid frame in the thorough tier; quick: the short ones and every 8th large one
-        f["fuzz"] = bool(f["valid"] and (not quick or not big or i % 8 == 0))
+        # (the varint-boundary extension frames get them in the thorough tier only)
+        f["fuzz"] = bool(f["valid"] and (not quick or ((not big or i % 8 == 0) and f.get("mut") != "ext")))
         nfuzz += f["fuzz"]
     ctx.log("TLC: %d frames (%d valid, %d mutated, %d with byte-level loops), %d states" % (
         len(frames), sum(f["valid"] for f in frames), sum(not f["valid"] for f in frames), nfuzz, r.distinct))
@@ -155,7 +156,7 @@ def run(ctx):
     ctx.evidence("exploration", {
         "evaluations": inputs, "distinct_nontrivial": len(nontrivial),
         "rule": "frames = field vectors TLC enumerates from the wire layouts of Codec.tla (full product of boundary domains for small records, all-min/all-max plus each field over its "
-                "domain for wide ones) and one-field mutations of every length/count/integer field by {0,1,len+1,2^31,2^63,2^64-1}; evaluations additionally count every truncation and "
+                "domain for wide ones; plus every integer field at every varint length boundary 2^(7k)-1, 2^(7k), 2^(7k)+1 and bodies of 127/128/129/16383/16384/16385 bytes) and one-field mutations of every length/count/integer field by {0,1,len+1,2^31,2^63,2^64-1}; evaluations additionally count every truncation and "
                 "byte replacement {00,7F,80,FF} tried on valid encodings and every CompareKeys pair; distinct by (codec, field vector); non-trivial = mutated, or a valid frame with a "
                 "non-minimal field value",
         "samples": [{"frame": sample, "events": [project(e) for e in traces[sample["id"]]][:2]}],
